@@ -217,6 +217,26 @@ pub fn violate_any(view: View, also: u32, msg: &str) -> ! {
     unsafe { libc::_exit(10) }
 }
 
+/// Views whose failure leaves the process in a state from which the case can
+/// safely continue (nothing was destroyed or freed that the harness will touch).
+pub fn is_soft(view: View) -> bool {
+    matches!(view, View::Orphan | View::Count | View::Table | View::Leak | View::Cost | View::Weak)
+}
+
+pub const SOFT_COUNTER: usize = NCOUNTERS - 1;
+
+/// Report a failure of `view`.  If the running property enables the view this
+/// ends the case as a violation.  Otherwise, for soft views, it is only counted
+/// and the case continues, so that a failure that belongs to another property
+/// cannot mask the views of the property being checked.
+pub fn violate_soft(view: View, msg: &str) {
+    let sh = shared();
+    if sh.enabled_views & view.bit() != 0 || !is_soft(view) {
+        violate(view, msg);
+    }
+    sh.counters[SOFT_COUNTER] += 1;
+}
+
 pub fn end_known_finding(id: u32, msg: &str) -> ! {
     let _t = arena::track_off();
     let sh = shared();
